@@ -142,8 +142,9 @@ class Name(Model):
 
     search_by_name = objects.where("name IS (?)")
     delete_by_module_name = objects.where("module = ?").delete_from()
+    # (not LIKE: "_" and "%" in a module name would be wildcards)
     delete_by_module_name_prefix = objects.where(
-        "module = ? OR module LIKE (? || '.%')"
+        "module = ? OR substr(module, 1, length(?) + 1) = (? || '.')"
     ).delete_from()
 
 
